@@ -33,6 +33,7 @@ pub enum Op<T> {
     IterCow(usize, Vec<Option<T>>),
     Push(usize, T),
     Bulk(usize, Vec<(usize, T)>),
+    BulkVia(usize, bool, Vec<(usize, T)>),
     Apply(usize),
     PopFront(usize, usize),
     PopFrontSlow(usize, usize),
@@ -144,6 +145,26 @@ pub fn parse_op<T: Elem>(line: &str) -> Result<Op<T>, String> {
                     .collect::<Result<Vec<_>, String>>()?
             };
             Op::Bulk(reg(0)?, pairs)
+        }
+        "bulk_via" => {
+            let cow = match a[1] {
+                "mut" => false,
+                "cow" => true,
+                other => return Err(format!("bad bulk_via mode `{other}`")),
+            };
+            let pairs = if a[2] == "-" {
+                vec![]
+            } else {
+                a[2].split(',')
+                    .map(|s| {
+                        let (i, x) = s
+                            .split_once(':')
+                            .ok_or_else(|| format!("bad pair `{s}` (want i:V)"))?;
+                        Ok((parse_int(i)?, parse_val::<T>(x)?))
+                    })
+                    .collect::<Result<Vec<_>, String>>()?
+            };
+            Op::BulkVia(reg(0)?, cow, pairs)
         }
         "apply" => Op::Apply(reg(0)?),
         "pop_front" => Op::PopFront(reg(0)?, int(1)?),
